@@ -117,6 +117,13 @@ def check(run, case):
                 continue
             # not justified by the valid prefix of the stream: which region is the input in?
             left = len(stream) - pos
+            acc = b''
+            for c in chunks:                       # bytes pending (per the reference receiver) when each receive call ends
+                acc += c
+                fs2, pos2, err2 = ADU.parse_stream('tcp', d, acc)
+                if err2 is None and 0 < len(acc) - pos2 <= 7:
+                    left = len(acc) - pos2
+                    break
             if err is not None:
                 run.region('tcp-length-inconsistent-with-pdu')
                 run.known('tcp-length-inconsistent-with-pdu', 'TCP framer delivers a frame whose MBAP length disagrees with its PDU', case)
